@@ -242,6 +242,19 @@ func cmdCheck(args []string) int {
 			ok, why := true, ""
 			if nat != nil && v.Witness != nil {
 				ok, why = nat.confirms(v)
+				if !ok {
+					// another witness of the same violation may be the one the native run reproduces
+					for _, v2 := range rep.Violations {
+						if v2 != v && v2.Kind+"|"+v2.Label+"|"+v2.Site == key && v2.Witness != nil {
+							if ok2, _ := nat.confirms(v2); ok2 {
+								ok, why, v = true, "", v2
+								b, _ := json.MarshalIndent(v.Witness, "", " ")
+								os.WriteFile(path, b, 0644)
+								break
+							}
+						}
+					}
+				}
 			}
 			if !ok {
 				if v.Sched {
@@ -370,7 +383,11 @@ func runNative(overlay map[string][]byte, pkgs map[string]string, reports []*Har
 		nr.err = err.Error()
 		return nr
 	}
-	defer os.RemoveAll(tmp)
+	if os.Getenv("GOSYM_KEEP") != "" {
+		fmt.Fprintf(os.Stderr, "KEEP native dir %s\n", tmp)
+	} else {
+		defer os.RemoveAll(tmp)
+	}
 	// jobs
 	var jobs []witnessJob
 	jobHarness := map[string]string{}
@@ -564,6 +581,7 @@ func runNative(overlay map[string][]byte, pkgs map[string]string, reports []*Har
 	// from an instrumented copy of the package (verifSP before every synchronisation operation), which
 	// holds the goroutine the engine preempted at the recorded operation (instrument.go)
 	var schedJobs []witnessJob
+	schedSeen := map[string]int{}
 	for _, rep := range reports {
 		for _, v := range rep.Violations {
 			if !v.Sched || v.Witness == nil || v.Kind == "race" || len(v.Witness.Preempts) == 0 {
@@ -572,8 +590,17 @@ func runNative(overlay map[string][]byte, pkgs map[string]string, reports []*Har
 			if ok, _ := nr.confirms(v); ok {
 				continue
 			}
+			// a few witnesses per distinct violation are enough
+			vk := rep.Name + "|" + v.Kind + "|" + v.Label + "|" + v.Site
+			if schedSeen[vk] >= 3 {
+				continue
+			}
+			schedSeen[vk]++
 			schedJobs = append(schedJobs, witnessJob{ID: v.Witness.Notes["vid"], W: v.Witness})
 		}
+	}
+	if os.Getenv("GOSYM_DEBUG") != "" {
+		fmt.Fprintf(os.Stderr, "DEBUG sched confirmation jobs: %d\n", len(schedJobs))
 	}
 	if len(schedJobs) > 0 {
 		repl2 := map[string]string{}
@@ -617,22 +644,44 @@ func runNative(overlay map[string][]byte, pkgs map[string]string, reports []*Har
 				continue
 			}
 			for try := 0; try < 3; try++ {
-				outf := filepath.Join(tmp, fmt.Sprintf("schedout_%s_%d.jsonl", sanitize(d), try))
-				run := exec.Command(bin, "-test.run", "^TestVerifReplay$", "-test.count=1", "-test.timeout=10m")
-				run.Dir = filepath.Join(repoDir, d)
-				run.Env = append(env, "VERIF_REPLAY="+sjf, "VERIF_OUT="+outf, "VERIF_SKIP=0")
-				run.CombinedOutput()
-				ob, _ := os.ReadFile(outf)
-				for _, line := range strings.Split(string(ob), "\n") {
-					var r nativeRun
-					if strings.TrimSpace(line) == "" || json.Unmarshal([]byte(line), &r) != nil || r.Trace == nil && r.Panic == "" && !r.Timeout {
-						continue
+				// one process per job: a job that crashes the process (an uncaught panic in a goroutine of
+				// the code under test) must not take the other jobs with it
+				for ji, job := range schedJobs {
+					one, _ := json.Marshal([]witnessJob{job})
+					jf1 := filepath.Join(tmp, fmt.Sprintf("schedjob_%d.json", ji))
+					os.WriteFile(jf1, one, 0644)
+					outf := filepath.Join(tmp, fmt.Sprintf("schedout_%s_%d_%d.jsonl", sanitize(d), try, ji))
+					run := exec.Command(bin, "-test.run", "^TestVerifReplay$", "-test.count=1", "-test.timeout=5m")
+					run.Dir = filepath.Join(repoDir, d)
+					run.Env = append(env, "VERIF_REPLAY="+jf1, "VERIF_OUT="+outf, "VERIF_SKIP=0")
+					if try == 2 {
+						run.Env = append(run.Env, "GOMAXPROCS=1")
 					}
-					rr := r
-					if nr.schedResults == nil {
-						nr.schedResults = map[string][]*nativeRun{}
+					o2, runErr := run.CombinedOutput()
+					ob, _ := os.ReadFile(outf)
+					got := false
+					started := false
+					for _, line := range strings.Split(string(ob), "\n") {
+						if strings.Contains(line, "\"started\":true") {
+							started = true
+						}
+						var r nativeRun
+						if strings.TrimSpace(line) == "" || json.Unmarshal([]byte(line), &r) != nil || r.Trace == nil && r.Panic == "" && !r.Timeout {
+							continue
+						}
+						rr := r
+						if nr.schedResults == nil {
+							nr.schedResults = map[string][]*nativeRun{}
+						}
+						nr.schedResults[r.ID] = append(nr.schedResults[r.ID], &rr)
+						got = true
 					}
-					nr.schedResults[r.ID] = append(nr.schedResults[r.ID], &rr)
+					if !got && started && runErr != nil {
+						if nr.schedResults == nil {
+							nr.schedResults = map[string][]*nativeRun{}
+						}
+						nr.schedResults[job.ID] = append(nr.schedResults[job.ID], &nativeRun{ID: job.ID, Panic: "process crashed: " + tail(string(o2), 300)})
+					}
 				}
 			}
 		}
